@@ -70,7 +70,8 @@ def Conforms (h : LaneHandler) (op : VOp) : Prop := ConformsOn (fun _ => True) h
 /-- the VOP2 encoding: SRC1 is an 8-bit VGPR number, so `ReadOperand(inst.Src1, i)` is a zero-extended 32-bit value -/
 def Src1IsVgpr (r : RawIn) : Prop := r.src1.toNat < 2 ^ 32
 
-/-- `v_lshl_add_u64`: shift counts for which both ALUs and the ISA agree (`S1[5:0] < 8`; compilers emit 0..4) -/
+/-- `v_lshl_add_u64`: shift counts for which both ALUs agreed with the ISA before the repair of the shift mask
+    (`S1[5:0] < 8`; compilers emit 0..4) -/
 def ShiftBelow8 (r : RawIn) : Prop := (r.src1.setWidth 32 &&& 63#32).toNat < 8
 
 instance (r : RawIn) : Decidable (ShiftBelow8 r) := by unfold ShiftBelow8; infer_instance
@@ -79,6 +80,32 @@ instance (r : RawIn) : Decidable (Src1IsVgpr r) := by unfold Src1IsVgpr; infer_i
 /-- the input on which `v_lshl_add_u64` of both ALUs differs from the ISA function: S0 = 1, S1 = 8, S2 = 0 -/
 def lshlAddWitness : RawIn :=
   { i := 0, src0 := 1#64, src1 := 8#64, src2 := 0#64, dstOld := 0#64, vcc := 0#64, acc := 0#64 }
+
+/-- lane bodies of `v_lshl_add_u64` as they were translated BEFORE the repair of the shift mask (`& 0x3F`), kept for
+    the `…_before_fix_refuted` statements: `ALUImpl.runVLSHLADDU64` (aluvop3a.go) … -/
+def raw_gcn3_runVLSHLADDU64Old (_u : Uni) (r : RawIn) : RawOut :=
+  let src0_0 : BitVec 64 := r.src0
+  let src1_0 : BitVec 32 := ((BitVec.setWidth 32 r.src1) &&& (63#32))
+  let src2_0 : BitVec 64 := r.src2
+  { dst := (some ((src0_0 <<< (src1_0).toNat) + src2_0)), acc := r.acc }
+
+def lh_gcn3_runVLSHLADDU64Old : LaneHandler :=
+  { arch := "gcn3", name := "runVLSHLADDU64", guard := .bitZero, accInit := .none, msrc := .none, sink := .none
+    ok := fun _ => true
+    raw := raw_gcn3_runVLSHLADDU64Old }
+
+/-- … and the CDNA3 `ALU.runVLSHLADDU64` (cdna3/vop3a.go) -/
+def raw_cdna3_runVLSHLADDU64Old (_u : Uni) (r : RawIn) : RawOut :=
+  let src0_0 : BitVec 64 := r.src0
+  let shift_0 : BitVec 64 := (r.src1 &&& (63#64))
+  let src2_0 : BitVec 64 := r.src2
+  let result_0 : BitVec 64 := ((src0_0 <<< (shift_0).toNat) + src2_0)
+  { dst := (some result_0), acc := r.acc }
+
+def lh_cdna3_runVLSHLADDU64Old : LaneHandler :=
+  { arch := "cdna3", name := "runVLSHLADDU64", guard := .bitZero, accInit := .none, msrc := .none, sink := .none
+    ok := fun _ => true
+    raw := raw_cdna3_runVLSHLADDU64Old }
 
 /-- the input on which GCN3 `v_lshrrev_b32` would differ if SRC1 could carry upper bits: S0 = 1, S1 = 2^32 -/
 def lshrrevWitness : RawIn :=
